@@ -555,7 +555,8 @@ pub fn run(tier: &str) -> i32 {
     for pass in passes(tier) {
         let budget = Duration::from_secs_f64(pass.secs) + carry;
         let t = Instant::now();
-        let rep = explore(&pass.prop, pass.depth, t + budget, threads(), &merge_wit);
+        let hard_min = pass.min_depth.min(pass.depth.saturating_sub(2)).max(1);
+        let rep = explore_min(&pass.prop, pass.depth, hard_min, t + budget, threads(), &merge_wit);
         carry = budget.saturating_sub(t.elapsed());
         o.cov_add("states", rep.programs);
         o.cov_add("transitions", rep.transitions.max(1));
